@@ -585,12 +585,15 @@ func (b *Backend) respond(c net.Conn, br *bufio.Reader, rec *Record, r *Resp) (k
 	if status == 0 {
 		status = 200
 	}
+	if status == -1 { // "000": three digits that are no HTTP status
+		status = 0
+	}
 	reason := r.Reason
 	if reason == "" {
 		reason = "OK"
 	}
 	var hb bytes.Buffer
-	fmt.Fprintf(&hb, "HTTP/1.1 %d %s\r\n", status, reason)
+	fmt.Fprintf(&hb, "HTTP/1.1 %03d %s\r\n", status, reason)
 	for _, h := range r.Headers {
 		hb.WriteString(h[0] + ": " + h[1] + "\r\n")
 	}
